@@ -1,13 +1,16 @@
 (* Model of pycaption/dfxp/base.py RegionCreator (C07): which regions are created, which id every div / p / span
    refers to, which regions survive cleanup_regions.
-   A layout is abstracted to (equality class, truthiness): class 0 is "equal to DFXP_DEFAULT_REGION"; None = no
-   layout. Region ids: -1 is DFXP_DEFAULT_REGION_ID ("bottom"), k >= 0 is "r<k>". Definitions only. *)
+   A layout is abstracted to (equality class, creates-a-region, truthiness): class 0 is "equal to
+   DFXP_DEFAULT_REGION"; None = no layout.  `creates` = origin or extent or padding or alignment (the test of
+   _create_unique_regions; an invariant of the equality class, Layout.__eq__ compares exactly these four);
+   `truthy` = bool(layout) = creates or webvtt_positioning (Layout.__bool__; NOT an invariant of the class,
+   Layout.__eq__ ignores webvtt_positioning) - the test of get_positioning_info and of _recreate_span. Region ids: -1 is DFXP_DEFAULT_REGION_ID ("bottom"), k >= 0 is "r<k>". Definitions only. *)
 From Coq Require Import List ZArith Bool.
 Import ListNotations.
 Open Scope Z_scope.
 
-Definition lay := option (Z * bool).
-Definition truthy (l : lay) : bool := match l with Some (_, b) => b | None => false end.
+Definition lay := option (Z * bool * bool).
+Definition truthy (l : lay) : bool := match l with Some (_, _, b) => b | None => false end.
 
 (* style-start nodes with a truthy layout ask for a region (the span carries region=); other nodes only
    contribute their layout to the set of regions to create *)
@@ -20,7 +23,7 @@ Record rset := mkRset { rs_layout : lay; rs_langs : list rlang }.
 Definition oset_add (l : lay) (s : list (Z * bool)) : list (Z * bool) :=
   match l with
   | None => s
-  | Some (c, b) => if existsb (fun x => fst x =? c) s then s else s ++ [(c, b)]
+  | Some (c, cr, _) => if existsb (fun x => fst x =? c) s then s else s ++ [(c, cr)]
   end.
 
 (* _collect_unique_regions: language, caption and node layouts in document order; None and the default discarded *)
@@ -30,7 +33,8 @@ Definition collect_unique (cs : rset) : list (Z * bool) :=
                          (rl_caps l) (oset_add (rl_layout l) s)) (rs_langs cs) [] in
   filter (fun x => negb (fst x =? 0)) all.
 
-(* _create_unique_regions with _get_new_id: only truthy layouts get a region; ids r0, r1, ... in that order *)
+(* _create_unique_regions with _get_new_id: only layouts with origin / extent / padding / alignment get a region;
+   ids r0, r1, ... in that order *)
 Fixpoint create_regions (u : list (Z * bool)) (seed : Z) : list (Z * Z) :=   (* class -> id *)
   match u with
   | [] => []
@@ -49,7 +53,7 @@ Definition pick (node cap lang set : lay) : lay :=
   if truthy node then node else if truthy cap then cap else if truthy lang then lang else set.
 Definition region_of (m : list (Z * Z)) (l : lay) : Z :=
   match l with
-  | Some (c, _) => match map_get c m with Some id => id | None => default_id end
+  | Some (c, _, _) => match map_get c m with Some id => id | None => default_id end
   | None => default_id
   end.
 
